@@ -648,6 +648,98 @@ func RunGraphFiles(files []string, out string) error {
 	return nil
 }
 
+// RunFileEdits loads a shipped graph file and, for every scalar parameter node in it, sets the
+// value to the type's zero value and to a non-zero one, saving, reloading and re-saving after each
+// update (parameters of shipped graphs have their own defaults, unlike nodes made by CreateNode).
+func RunFileEdits(files []string, out string, maxParams int) error {
+	fo, err := os.Create(out)
+	if err != nil {
+		return err
+	}
+	defer fo.Close()
+	enc := json.NewEncoder(fo)
+	canon := func(app *generator.App) string {
+		sch := app.VerifGraph().Schema()
+		sch.Types = nil
+		for id, n := range sch.Nodes {
+			sort.Slice(n.Dependencies, func(i, j int) bool { return n.Dependencies[i].Name < n.Dependencies[j].Name })
+			n.Version = 0
+			sch.Nodes[id] = n
+		}
+		b, _ := json.Marshal(sch)
+		return string(b)
+	}
+	for _, f := range files {
+		data, err := os.ReadFile(f)
+		if err != nil {
+			return err
+		}
+		app, ok := reloadApp(data)
+		if !ok {
+			_ = enc.Encode(geFileLine{K: "file", File: f + " (edits)", H1: []int{}, H2: []int{}})
+			continue
+		}
+		inst := app.VerifGraph()
+		ids := []string{}
+		for id := range inst.Schema().Nodes {
+			ids = append(ids, id)
+		}
+		sort.Slice(ids, func(i, j int) bool { return nodeNum(ids[i]) < nodeNum(ids[j]) })
+		done := 0
+		for _, id := range ids {
+			var msgs [][]byte
+			switch inst.Node(id).(type) {
+			case *parameter.Float64:
+				msgs = [][]byte{[]byte("0"), []byte("2.5")}
+			case *parameter.Int:
+				msgs = [][]byte{[]byte("0"), []byte("3")}
+			case *parameter.String:
+				msgs = [][]byte{[]byte(`""`), []byte(`"x"`)}
+			case *parameter.Bool:
+				msgs = [][]byte{[]byte("false"), []byte("true")}
+			default:
+				continue
+			}
+			if done >= maxParams {
+				break
+			}
+			done++
+			for _, msg := range msgs {
+				ln := geFileLine{K: "file", File: fmt.Sprintf("%s (edit %s := %s)", f, id, msg), H1: []int{}, H2: []int{}}
+				func() {
+					defer func() {
+						if r := recover(); r != nil {
+							ln.LoadOk = false
+							ln.S1 = fmt.Sprintf("panic: %v", r)
+						}
+					}()
+					if _, err := inst.UpdateParameter(id, msg); err != nil {
+						ln.S1 = err.Error()
+						return
+					}
+					save1 := app.Schema()
+					app2, ok := reloadApp(save1)
+					if !ok {
+						return
+					}
+					save2 := app2.Schema()
+					ln.LoadOk = true
+					ln.Nodes = len(ids)
+					ln.H1, ln.H2 = hash3(save1), hash3(save2)
+					ln.S1, ln.S2 = canon(app), canon(app2)
+					if !bytes.Equal(save1, save2) && ln.H1[0] == ln.H2[0] && ln.H1[1] == ln.H2[1] && ln.H1[2] == ln.H2[2] {
+						ln.H2[0] ^= 1
+					}
+				}()
+				if err := enc.Encode(ln); err != nil {
+					return err
+				}
+			}
+		}
+	}
+	return nil
+}
+
 // RunAllTypes creates one node of every registered type (chunks of `chunk` nodes per
 // application), connects nothing, and puts each application through
 // save -> load -> save. Written as "file" lines (same judgement as shipped graph files).
